@@ -115,7 +115,7 @@ func checkStmt(dialect, qual, q string, u *universe, st stmt, stats *refStats) (
 	if qual != "nil" && strings.Contains(strings.ToLower(st.Text), strings.ToLower(u.Marker)) {
 		add("marker-leak", "", "", fmt.Sprintf("the schema name %q occurs in a %s statement planned with the %s qualifier", u.Marker, st.Role, qual))
 	}
-	if qual == "empty" && isSchemaStmt(tk) {
+	if qual != "nil" && isSchemaStmt(tk) {
 		add("schema-stmt", "", "", fmt.Sprintf("a %s statement creates/drops/alters a schema in a schema-scoped plan", st.Role))
 	}
 	// top-level index reference (PostgreSQL): first name chain after the head keywords.
